@@ -6,7 +6,5 @@ CONSTANTS
   Deviations <- NoDev
   MaxOps = 1000
 CONSTRAINT Progress
-INVARIANT ServesWhatWasAsked
-INVARIANT ScaledOnce
 POSTCONDITION Accepted
 CHECK_DEADLOCK FALSE
